@@ -145,15 +145,13 @@ def run(ctx):
     ctx.check("R12.0", f"{f.key}::R_p = conj(transpose(L_p))", okk, s, f)
     f = base.methods["left_sqrt_metric"]
     ctx.saw_func(f)
-    body = src(f.node)
     p, t = f.params()[1:3]
-    okk = f"jax.vjp(Partial(self.transformation, **primals_kw), {p})" in body and "bwd = _functional_conj(bwd)" in body \
-        and f"bwd({t})" in body
     cfg = cfg_of(f)
     rd = cfg.reaching_defs(f.params())
     rnode = [n for n in cfg.nodes if n.kind == "stmt" and isinstance(n.ast, ast.Return)][0]
-    e = src(inline_at(cfg, rd, rnode.id, rnode.ast.value))
-    ctx.check("R12.0", f"{f.key}::L_p = conj(vjp(transformation, p))", okk and e.endswith("[0]"), e, f)
+    e = src(inline_at(cfg, rd, rnode.id, rnode.ast.value, depth=8, unpack_calls=True))
+    want = f"_functional_conj(jax.vjp(Partial(self.transformation, **primals_kw), {p})[1])({t})[0]"
+    ctx.check("R12.0", f"{f.key}::L_p = conj(vjp(transformation, p))", e == want, e, f)
 
     # ------------------------------------------------------------------ R12.3 freeze table
     ctx.rule("R12.3", "LikelihoodPartial freeze table: per method one insert slot per positional argument; position slots are "
